@@ -159,6 +159,10 @@ class Live(JupyterMixin, RenderHook):
             try:
                 if self.auto_refresh and self._refresh_thread is not None:
                     self._refresh_thread.stop()
+                # text left pending by print(..., end="") belongs above the display, not after its last frame
+                for stream in (sys.stdout, sys.stderr):
+                    if isinstance(stream, FileProxy):
+                        stream.flush()
                 # allow it to fully render on the last even if overflow
                 self.vertical_overflow = "visible"
                 if not self.console.is_jupyter:
